@@ -74,6 +74,54 @@ def uses_default_saver(prog, cq):
     return True
 
 
+def reader_loader(check, prog):
+    """R6: file and stream targets are read alike, by a loader that constructs
+    what the writer emits.  `serialize.save` writes with the full `yaml.dump`
+    (Python complex numbers, NumPy functions, `dict` come out with python/...
+    tags), so both branches of `serialize.load` -- a file name, an already open
+    stream -- must hand the stream to `yaml.load` with the same non-safe loader."""
+    from .common import call_args
+    q = 'holopy.core.io.serialize.load'
+    fd = prog.func(q)
+    loc = prog.loc(q, fd)
+    it = Interp(prog, max_depth=1)
+    res = it.analyze(q)
+    reads = [c for c in it.calls if c['name'] in (
+        'yaml.load', 'yaml.safe_load', 'yaml.full_load', 'yaml.unsafe_load',
+        'yaml.load_all')]
+    check.need('yaml reads in serialize.load', len(reads), 2, 'R6-reader-loader',
+               'serialize.load branches', 'one read for a file name, one for an open '
+               'stream', loc)
+
+    def loader(c):
+        if c['name'] != 'yaml.load':
+            return c['name'].split('.')[-1]
+        v = call_args(prog, c).get('Loader')
+        if v is None and len(c['args']) > 1:
+            v = c['args'][1]
+        return show(v) if v is not None else None
+    ls = [loader(c) for c in reads]
+    good = ('FullLoader', 'UnsafeLoader', 'Loader', 'full_load', 'unsafe_load')
+    ok = bool(ls) and len(set(ls)) == 1 and any(
+        str(ls[0]).endswith(g) for g in good)
+    check.require(ok, 'R6-reader-loader', 'serialize.load',
+                  'every branch reads with the same full loader (%s)' % ls[0]
+                  if ls else 'reads', loc,
+                  fail_detail='the branches of serialize.load read with %s: text that '
+                  'loads from a file name raises ConstructorError from an open stream '
+                  '(python/complex, python/name: tags -- every model, every prior built '
+                  'with arithmetic, a scatterer with a Python-complex index)' % ls)
+    wr = 'holopy.core.io.serialize.save'
+    itw = Interp(prog, max_depth=1)
+    itw.analyze(wr)
+    dumps = [c['name'] for c in itw.calls if c['name'].startswith('yaml.') and
+             'dump' in c['name']]
+    check.require(bool(dumps) and set(dumps) == {'yaml.dump'}, 'R6-reader-loader', 'serialize.save writer',
+                  'the writer is the full yaml.dump the reader is matched to',
+                  prog.loc(wr, prog.func(wr)),
+                  fail_detail='serialize.save writes with %s' % dumps)
+
+
 def run(check, prog):
     tier = check.tier
     check.explanation = (
@@ -89,6 +137,7 @@ def run(check, prog):
     r3_saver_filter(check, prog)
     r4_tags(check, prog)
     r5_model(check, prog)
+    reader_loader(check, prog)
     # a reloaded model keeps its value-to-place mapping and its ties only if the
     # map grammar is read back digit for digit and rebuilt scatterers keep the
     # identity of shared priors (rules shared with C11)
